@@ -170,6 +170,22 @@ chk("C08",
     SCHEME_TRUST + " Non-integer values of integer fields are outside the theorems (enumerated on the real code).",
     "Lean 4 proof (refusal theorems for all nine builders, refused-or-correct for PiBas) + recorded-oracle correspondence over a configuration grid + direct oracle",
     "6/C08")
+chk("C09",
+    "Props/C09.lean over the composed model - the client program extracted from frontend/client/** (a Service object freshly loaded from disk for "
+    "every command, i.e. re-created between ANY two steps), the reference server that the extracted server program refines (C10), and server restarts "
+    "inserted anywhere: every history of commands and restarts delivers only results whose answering index and token come from the same key "
+    "(delivered_results_are_correct); the documented workflow with a restart or not after every step (all 64 placements) is accepted step by step "
+    "and both searches deliver the uploaded index under the key on disk; once the index is uploaded searches stay right through any further "
+    "commands and restarts. With C01/C02 (same-key search = DB.get(w)) and C03 (wire) that is the property. Tie: translator (both IRs) + the "
+    "end-to-end run: the REAL client Service against the REAL server handler over a loopback websocket for all nine schemes, database given as JSON "
+    "(utf-8 keywords incl. non-ASCII, hex identifiers), schedules {client re-created every step; + restart after the upload; one object for the local "
+    "steps + restart after both uploads; restarts between searches; every next step started within the server's cleanup delay}; step outcomes "
+    "compared with the model, every delivered result with DB.get(w, []) for stored and absent keywords.",
+    "Trusted: Lean kernel + 3 standard axioms; translator and interpreters (validated by C10, C11 and this run); scheme correctness under one key and the "
+    "wire formats are used as given (C01-C03: proved for PiBas/PiPack, correspondence + direct oracle for the other seven schemes); websockets, "
+    "asyncio; the server's cleanup delay is shortened by the harness (0 or 80 ms).",
+    "Lean 4 proof over the composed client/server model (all histories, all restart placements) + end-to-end differential run on all nine schemes",
+    "6/C09")
 chk("C10",
     "The server program is EXTRACTED from frontend/server/** on every run (AST translator -> Generated/ServerIR.lean: guards and effects of the "
     "three handlers, the dispatch table, the constructor's load logic, close_service, the file-manager primitives, the manager's step order) and "
